@@ -131,10 +131,11 @@ was not Closed: Close event and `close_channel()` (sender dropped) -/
 def closeChan (c : Chan) : Chan :=
   if c.closed then c else { closed := true, events := c.events + 1, senderDropped := true }
 
-/-- `SctpInner::close_data_channel` as the code has it: `store(Closed)` and an **unconditional**
-`send_event(Close)`, no `close_channel()` -/
+/-- `SctpInner::close_data_channel` as the code has it (since the SCTP fix "close_data_channel announces
+Close at most once"): a channel that is already Closed is left alone; otherwise Closing → (RE-CONFIG) →
+`swap(Closed)` and one `Close` event. Still no `close_channel()`: the event sender stays alive. -/
 def rawCloseChan (c : Chan) : Chan :=
-  { c with closed := true, events := if c.senderDropped then c.events else c.events + 1 }
+  if c.closed then c else { c with closed := true, events := c.events + 1 }
 
 def rawCloseAt : List Chan → Nat → List Chan
   | [], _ => []
